@@ -36,6 +36,8 @@ func (g *Global) staticObligations(want map[string]bool) []*Obligation {
 			out = append(out, g.readAfter(d)...)
 		case "covers":
 			out = append(out, g.coversFields(d)...)
+		case "delegates":
+			out = append(out, g.delegates(d)...)
 		case "globals_readonly":
 			out = append(out, g.globalsReadonly(d)...)
 		}
@@ -443,4 +445,87 @@ func (g *Global) globalsReadonly(d PkgDecl) []*Obligation {
 	}
 	return []*Obligation{{Name: short + "/globals_readonly", Fn: short, Kind: "globals_readonly", Props: d.Props, Backend: "static", Static: st, Pos: d.Pos,
 		Clause: "no function of " + d.Pkg + " writes a package-level variable"}}
+}
+
+// delegates [C10] newUnaryBuiltin newBinaryBuiltin : math except degrees radians
+//
+// Every call of the named wrapper constructors in the package passes a function of the named
+// (standard-library) package as its function argument, except the listed local ones: the
+// arithmetic exposed to Starlark is the library's, whose correctness is an assumption, and not
+// a re-implementation inside the module.
+func (g *Global) delegates(d PkgDecl) []*Obligation {
+	i := strings.Index(d.Text, " : ")
+	if i < 0 {
+		return nil
+	}
+	wrappers := map[string]bool{}
+	for _, w := range strings.Fields(d.Text[:i]) {
+		wrappers[strings.Trim(w, ",")] = true
+	}
+	rest := strings.Fields(d.Text[i+3:])
+	target := ""
+	except := map[string]bool{}
+	seenExcept := false
+	for _, w := range rest {
+		w = strings.Trim(w, ",")
+		if w == "except" {
+			seenExcept = true
+		} else if seenExcept {
+			except[w] = true
+		} else {
+			target = w
+		}
+	}
+	short := d.Pkg[strings.LastIndex(d.Pkg, "/")+1:]
+	var bad []string
+	n := 0
+	for fn := range g.allFuncs {
+		if fn.Pkg == nil || fn.Pkg.Pkg.Path() != d.Pkg || fn.Blocks == nil {
+			continue
+		}
+		for _, b := range fn.Blocks {
+			for _, in := range b.Instrs {
+				ci, ok := in.(ssa.CallInstruction)
+				if !ok {
+					continue
+				}
+				callee, ok := ci.Common().Value.(*ssa.Function)
+				if !ok || !wrappers[callee.Name()] || callee.Pkg == nil || callee.Pkg.Pkg.Path() != d.Pkg {
+					continue
+				}
+				n++
+				for _, a := range ci.Common().Args {
+					if _, isSig := a.Type().Underlying().(*types.Signature); !isSig {
+						continue
+					}
+					what := "a computed function value"
+					switch f := a.(type) {
+					case *ssa.Function:
+						if f.Pkg != nil && f.Pkg.Pkg.Path() == target {
+							what = ""
+						} else if except[f.Name()] {
+							what = ""
+						} else {
+							what = f.String()
+						}
+					case *ssa.MakeClosure:
+						what = "a closure"
+					}
+					if what != "" {
+						bad = append(bad, callee.Name()+" is given "+what)
+					}
+				}
+			}
+		}
+	}
+	st := "ok"
+	if n == 0 {
+		st = "no call of " + strings.TrimSpace(d.Text[:i]) + " found (contract binding lost)"
+	}
+	if len(bad) > 0 {
+		sort.Strings(bad)
+		st = "not delegated to package " + target + ": " + strings.Join(bad, "; ")
+	}
+	return []*Obligation{{Name: short + "/delegates", Fn: short, Kind: "delegates", Props: d.Props, Backend: "static", Static: st, Pos: d.Pos,
+		Clause: "the functions wrapped by " + strings.TrimSpace(d.Text[:i]) + " are those of package " + target}}
 }
